@@ -37,7 +37,7 @@ func (d *Doctor) diagnoseCommit(com *objects.Commit) *Issue {
 	rowsCount := 0
 	var bb []byte
 	var blk [][]string
-	var prevRow = make([]string, len(tbl.Columns))
+	var prevRow []string
 	for i, sum := range tbl.Blocks {
 		if len(sum) == 0 {
 			return &Issue{
@@ -55,14 +55,14 @@ func (d *Doctor) diagnoseCommit(com *objects.Commit) *Issue {
 			}
 		}
 		for j := 0; j < len(blk); j++ {
-			if slice.StringSliceEqual(blk[j], prevRow) {
+			if prevRow != nil && slice.StringSliceEqual(blk[j], prevRow) {
 				return &Issue{
 					Err:        fmt.Sprintf("duplicated rows: %d,%d", j-1, j),
 					Resolution: ReingestResolution,
 					Block:      sum,
 				}
 			}
-			copy(prevRow, blk[j])
+			prevRow = append(prevRow[:0], blk[j]...)
 		}
 		rowsCount += len(blk)
 	}
